@@ -27,6 +27,10 @@ KEY = b"dGhlIHNhbXBsZSBub25jZQ=="
 
 def _decision_script(dec):
     kind = dec[0]
+    if kind == "retry":
+        # a first accept the HTTP/1.1 serialiser refuses (a header name that is no token) is raised into the application, which then decides again
+        inner = _decision_script(dec[1])
+        return [inner[0], ["try_send", {"type": "websocket.accept", "headers": [(b"x bad name", b"1")]}]] + inner[1:]
     if kind == "accept":
         m = {"type": "websocket.accept"}
         if dec[1] is not None:
@@ -104,6 +108,8 @@ def gen(rng, tier):
             cases.append(("hs-x", hv, {"split_protos": True}, ("accept", sub, None)))
         for nm_ in (b"Sec-WebSocket-Protocol", b"SEC-WEBSOCKET-PROTOCOL", b"sec-websocket-Protocol"):
             cases.append(("hs-x", hv, {}, ("accept", None, [(nm_, b"evil")])))
+    for inner in (("close",), ("accept", None, [(b"x-extra", b"1")]), ("http", 401, [(b"x-why", b"auth")], [b"nope"])):
+        cases.append(("hs-x", "1.1", {}, ("retry", inner)))
     for pv in (None, b"h2c-tunnel", b"WebSocket2", b""):
         for dec in (("accept", None, None), ("close",)):
             cases.append(("hs-x", "2", {"h2_protocol": pv}, dec))
@@ -316,6 +322,8 @@ def check(case, obs, tally):
         if first is None or first.get("type") != "websocket.connect":
             out.append({"clause": "validity", "sig": "C11.first-message-not-connect", "detail": "first message %r" % (first,)})
         dec = t["dec"]
+        if dec[0] == "retry":
+            dec = tuple(dec[1])  # the decision that counts is the one made after the refused attempt
         tally.clause("decision")
         if resp is None:
             out.append({"clause": "decision", "sig": "C11.no-response/%s" % dec[0], "detail": "no handshake response on the wire"})
